@@ -3,6 +3,7 @@ package main
 
 import (
 	"bytes"
+	"compress/zlib"
 	"encoding/hex"
 	"fmt"
 	"math/rand"
@@ -10,10 +11,40 @@ import (
 )
 
 type marker struct {
-	Loc  string // location kind
-	Text string // the marker itself (ASCII, high entropy)
-	Sig  bool   // lives in a signature /Contents value (allowed to stay in clear)
+	Loc      string // location kind
+	Text     string // the marker itself (ASCII, high entropy)
+	Sig      bool   // lives in a signature /Contents value (allowed to stay in clear)
+	Identity bool   // lives in a stream whose only filter is /Crypt with the Identity crypt filter (not enciphered by definition)
 }
+
+// filter pipelines with a crypt filter; enc encodes the payload for the pipeline (the Identity crypt filter is a no-op)
+type cryptVariant struct {
+	Name    string
+	Filters string // /Filter value
+	Parms   string // /DecodeParms value with the Identity crypt filter named explicitly ("" = none)
+	Sole    bool
+	Named   bool // the DecodeParms variant names a non-Identity crypt filter (/StdCF): such a stream is to be enciphered
+	enc     func([]byte) []byte
+}
+
+func zl(b []byte) []byte {
+	var buf bytes.Buffer
+	w := zlib.NewWriter(&buf)
+	w.Write(b)
+	w.Close()
+	return buf.Bytes()
+}
+
+func hexEnc(b []byte) []byte { return []byte(strings.ToUpper(hex.EncodeToString(b)) + ">") }
+
+var cryptVariants = []cryptVariant{
+	{"crypt", "[/Crypt]", "[<< /Type /CryptFilterDecodeParms /Name /Identity >>]", true, false, func(b []byte) []byte { return b }},
+	{"crypt-stdcf", "[/Crypt]", "[<< /Type /CryptFilterDecodeParms /Name /StdCF >>]", true, true, func(b []byte) []byte { return b }},
+	{"crypt-flate", "[/Crypt /FlateDecode]", "[<< /Name /Identity >> null]", false, false, zl},
+	{"flate-crypt", "[/FlateDecode /Crypt]", "[null << /Name /Identity >>]", false, false, zl},
+	{"crypt-hex-flate", "[/Crypt /ASCIIHexDecode /FlateDecode]", "[<< /Name /Identity >> null null]", false, false, func(b []byte) []byte { return hexEnc(zl(b)) }},
+}
+
 
 type genDoc struct {
 	Name    string
@@ -36,6 +67,7 @@ type docOpts struct {
 	Sig       bool // add a signature field + signature dictionary
 	Private   bool // add private (non-standard) keys pointing to string-carrying objects
 	ExtraStrs [][]byte // extra byte strings placed in a private array (boundary lengths etc.)
+	Crypt     string   // streams with crypt filters on: "embedded", "xobject", "content", "metadata" (comma separated)
 	Pages     int
 }
 
@@ -73,6 +105,57 @@ func buildDoc(rnd *rand.Rand, name string, o docOpts) genDoc {
 		privstr = 18
 		privhex = 19
 	)
+	// ---- streams with crypt filters ----
+	want := func(k string) bool { return strings.Contains(","+o.Crypt+",", ","+k+",") }
+	streamObj := func(dictEntries string, v cryptVariant, withParms bool, payload []byte) int {
+		n := alloc()
+		data := v.enc(payload)
+		parms := ""
+		if withParms {
+			parms = " /DecodeParms " + v.Parms
+		}
+		objs[n] = fmt.Sprintf("<< %s /Filter %s%s /Length %d >>\nstream\n%s\nendstream", dictEntries, v.Filters, parms, len(data), data)
+		return n
+	}
+	mkCrypt := func(kind string, v cryptVariant, withParms bool) string {
+		loc := fmt.Sprintf("cryptfilter-%s-%s", kind, v.Name)
+		if withParms {
+			loc += "-parms"
+		}
+		m := newMarker(rnd, loc)
+		m.Identity = v.Sole && !(v.Named && withParms)
+		g.Markers = append(g.Markers, m)
+		return m.Text
+	}
+	var extraNames, extraXObj, extraContents string
+	for _, v := range cryptVariants {
+		for _, wp := range []bool{false, true} {
+			if want("embedded") {
+				payload := []byte("attachment " + mkCrypt("embedded", v, wp) + " end\n")
+				ef := streamObj(fmt.Sprintf("/Type /EmbeddedFile /Params << /Size %d >>", len(payload)), v, wp, payload)
+				fs := alloc()
+				objs[fs] = fmt.Sprintf("<< /Type /Filespec /F (c%d.txt) /UF (c%d.txt) /EF << /F %d 0 R >> >>", fs, fs, ef)
+				extraNames += fmt.Sprintf(" (ZC%03d) %d 0 R", fs, fs)
+			}
+			if want("xobject") || want("metadata") {
+				md := ""
+				if want("metadata") {
+					x := []byte(fmt.Sprintf("<?xpacket begin=\"\" id=\"W5M0MpCehiHzreSzNTczkc9d\"?>\n<x:xmpmeta xmlns:x=\"adobe:ns:meta/\"><rdf:RDF xmlns:rdf=\"http://www.w3.org/1999/02/22-rdf-syntax-ns#\"><rdf:Description rdf:about=\"\" xmlns:dc=\"http://purl.org/dc/elements/1.1/\"><dc:title><rdf:Alt><rdf:li xml:lang=\"x-default\">%s</rdf:li></rdf:Alt></dc:title></rdf:Description></rdf:RDF></x:xmpmeta>\n<?xpacket end=\"w\"?>\n", mkCrypt("metadata", v, wp)))
+					md = fmt.Sprintf(" /Metadata %d 0 R", streamObj("/Type /Metadata /Subtype /XML", v, wp, x))
+				}
+				payload := []byte("q 1 0 0 1 0 0 cm Q\n")
+				if want("xobject") {
+					payload = []byte("q 1 0 0 1 0 0 cm Q\n%" + mkCrypt("xobject", v, wp) + "\n")
+				}
+				xo := streamObj("/Type /XObject /Subtype /Form /BBox [0 0 10 10]"+md, v, wp, payload)
+				extraXObj += fmt.Sprintf(" /XC%d %d 0 R", xo, xo)
+			}
+			if want("content") {
+				c := streamObj("", v, wp, []byte("q Q\n%"+mkCrypt("content", v, wp)+"\n"))
+				extraContents += fmt.Sprintf(" %d 0 R", c)
+			}
+		}
+	}
 	var kids []string
 	var firstPage int
 	for p := 0; p < o.Pages; p++ {
@@ -95,8 +178,15 @@ func buildDoc(rnd *rand.Rand, name string, o docOpts) genDoc {
 			privEntries = fmt.Sprintf(" /PieceInfo << /Verif << /LastModified (D:20200101000000Z) /Private << /Inline (%s) /Ref %d 0 R >> >> >>",
 				mk("pieceinfo-direct-string"), priv)
 		}
-		objs[pg] = fmt.Sprintf("<< /Type /Page /Parent %d 0 R /MediaBox [0 0 612 792] /Contents %d 0 R /Resources << /Font << /F1 %d 0 R >> >> /Annots [%s]%s >>",
-			pages, ct, font, annots, privEntries)
+		contents, xres := fmt.Sprintf("%d 0 R", ct), ""
+		if p == 0 && extraContents != "" {
+			contents = fmt.Sprintf("[%d 0 R%s]", ct, extraContents)
+		}
+		if p == 0 && extraXObj != "" {
+			xres = " /XObject <<" + extraXObj + " >>"
+		}
+		objs[pg] = fmt.Sprintf("<< /Type /Page /Parent %d 0 R /MediaBox [0 0 612 792] /Contents %s /Resources << /Font << /F1 %d 0 R >>%s >> /Annots [%s]%s >>",
+			pages, contents, font, xres, annots, privEntries)
 		annPriv := ""
 		if o.Private && p == 0 {
 			annPriv = fmt.Sprintf(" /VerifPriv %d 0 R /VerifPrivStr %d 0 R /VerifPrivHex %d 0 R", priv, privstr, privhex)
@@ -116,8 +206,8 @@ func buildDoc(rnd *rand.Rand, name string, o docOpts) genDoc {
 	if o.Sig {
 		sigflags = " /SigFlags 3"
 	}
-	objs[catalog] = fmt.Sprintf("<< /Type /Catalog /Pages %d 0 R /Metadata %d 0 R /Outlines %d 0 R /Names << /EmbeddedFiles << /Names [(%s) %d 0 R] >> >> /AcroForm << /Fields [%s] /DA (/F1 0 Tf 0 g)%s /DR << /Font << /F1 %d 0 R >> >> >> >>",
-		pages, meta, outl, mk("nametree-key"), fspec, af, sigflags, font)
+	objs[catalog] = fmt.Sprintf("<< /Type /Catalog /Pages %d 0 R /Metadata %d 0 R /Outlines %d 0 R /Names << /EmbeddedFiles << /Names [(%s) %d 0 R%s] >> >> /AcroForm << /Fields [%s] /DA (/F1 0 Tf 0 g)%s /DR << /Font << /F1 %d 0 R >> >> >> >>",
+		pages, meta, outl, mk("nametree-key"), fspec, extraNames, af, sigflags, font)
 	objs[pages] = fmt.Sprintf("<< /Type /Pages /Count %d /Kids [%s] >>", o.Pages, strings.Join(kids, " "))
 	objs[info] = fmt.Sprintf("<< /Title (%s) /Author %s /Subject (%s) /VerifCustom (%s) >>",
 		mk("info-title"), hx(mk("info-author-hex")), mk("info-subject"), mk("info-custom-key"))
